@@ -267,7 +267,14 @@ func main() {
 			defer wg.Done()
 			sem <- struct{}{}
 			defer func() { <-sem }()
-			results[i] = runProbe(testbin, scratch, cfgs[i])
+			for attempt := 0; attempt < 3; attempt++ {
+				results[i] = runProbe(testbin, scratch, cfgs[i])
+				// the probe picks a free port and main() binds it a moment later: another process may grab it
+				// in between (harness-level race, not a verdict) — try again with a new port
+				if f := results[i].Fatal + results[i].LogTail; !(strings.Contains(f, "address already in use") && results[i].End == nil) {
+					break
+				}
+			}
 		}(i)
 	}
 	wg.Wait()
